@@ -9,6 +9,10 @@ open Lean PonyVerif.Drive PonyVerif.Model.ConnLock
                          "prog":[["query",caught] | ["write",many,caught] | ["modify",[many..],caught] | ["flush",caught]
                                  | ["commit",caught] | ["rollback",caught] | ["getConnection",caught]]}]}
   reply    {"sessions":[{"outcome":"ok"|exception kind, "events":[...], "state":{...}}]}
+
+  request  {"op":"schedule", "threads":[["pre_acquire","acquire","pre_release","release",...], ...], "schedule":[thread index, ...]}
+  reply    {"enabled":[bool per step], "pre":b, "tx":b, "finished":[bool per thread], "phases":[...], "holders_tx":n}
+           (the interleaving semantics `Interleave.step`: is the observed global order of lock events a run of the model?)
 -/
 
 def sqlName : Sql → String
@@ -60,6 +64,17 @@ def natsOfJson (j : Json) : Except String (List Nat) := do
   | .arr a => a.toList.mapM (fun x => fromJson? x)
   | _ => throw "list of naturals expected"
 
+def levOfJson (j : Json) : Except String LEv := do
+  match j with
+  | .str "pre_acquire" => pure .preAcq
+  | .str "acquire" => pure .acq
+  | .str "pre_release" => pure .preRel
+  | .str "release" => pure .rel
+  | _ => throw s!"bad lock event {j.compress}"
+
+def phaseName : Phase → String
+  | .idle => "idle" | .hasPre => "hasPre" | .hasBoth => "hasBoth" | .hasTx => "hasTx"
+
 def handle (j : Json) : Except String Json := do
   let op ← argStr j "op"
   match op with
@@ -83,5 +98,21 @@ def handle (j : Json) : Except String Json := do
         outs := outs.push (Json.mkObj [("outcome", .str outcome), ("events", .arr (evs.map jsonOfEv).toArray), ("state", jsonOfSt s')])
         s := s'
       pure (Json.mkObj [("sessions", .arr outs)])
+  | "schedule" =>
+      let ths ← (← argArr j "threads").mapM (fun t => do
+        match t with
+        | .arr a => a.toList.mapM levOfJson
+        | _ => throw "thread: list of lock events expected")
+      let sched ← natsOfJson (← j.getObjVal? "schedule")
+      let mut w := Interleave.initial ths
+      let mut enabled : Array Json := #[]
+      for i in sched do
+        match Interleave.step w i with
+        | some w' => enabled := enabled.push (.bool true); w := w'
+        | none => enabled := enabled.push (.bool false)
+      pure (Json.mkObj [("enabled", .arr enabled), ("pre", .bool w.pre), ("tx", .bool w.tx),
+        ("finished", .arr (w.threads.map (fun t => Json.bool t.rest.isEmpty)).toArray),
+        ("phases", .arr (w.threads.map (fun t => Json.str (phaseName t.phase))).toArray),
+        ("holders_tx", .num (JsonNumber.fromNat (w.threads.countP Interleave.Thread.holdsTx)))])
   | _ => throw s!"unknown op {op}"
 end PonyVerif.Drive.C19
